@@ -52,7 +52,8 @@ def cases(rng, tier):
             ind = factor_dims(rng, d, 48)
             outd = list(ind) if rng.random() < 0.4 else (rng.sample(ind, len(ind)) if rng.random() < 0.25 else factor_dims(rng, d, 48))
             c.update(kind=kind, ind=ind, outd=outd, fill=rng.choice(["gauss", "gauss", "gauss", "int", "rank1", "zero"]),
-                     batch=None if rng.random() < 0.6 else rng.randint(1, 3), vshape=rng.choice([[1], [3], [2, 2], [1, 3]]))
+                     batch=None if rng.random() < (0.55 if kind == "cores" else 0.85) else rng.randint(1, 3),
+                     vshape=rng.choice([[1], [3], [2, 2], [1, 3]]))
             if kind == "cores":
                 c["ranks"] = [rng.randint(1, 4) for _ in range(d - 1)]
             elif kind == "trunc":
@@ -73,8 +74,9 @@ def cases(rng, tier):
         elif u < 0.85:
             ns = factor_dims(rng, d, 36)
             op = rng.choice(KRON_OPS)
-            c.update(kind="kron", ns=ns, op=op, batch=None if rng.random() < 0.65 else rng.randint(1, 3),
-                     build="cores" if (op == "cholesky" or rng.random() < 0.5) else "dense")
+            batch = None if rng.random() < 0.65 else rng.randint(1, 3)
+            c.update(kind="kron", ns=ns, op=op, batch=batch,
+                     build="cores" if (op == "cholesky" or rng.random() < (0.85 if batch else 0.5)) else "dense")
         else:
             d = rng.choice([1, 2, 2, 3, 3, 4])
             why = rng.choice(["rank", "nonsquare"]) if d >= 2 else "nonsquare"
@@ -277,7 +279,7 @@ def run_tt(ctx, case, rng, report):
     ranks = [10 ** 4] * (d - 1) if kind == "dense" else list(case["ranks"])
     r = safe(lambda: tn.TTMatrix(T(M), ranks=ranks, input_dims=list(ind), output_dims=list(outd)))
     if r[0] == "err":
-        report("TTMatrix(M)", ("batch (3-D M)" if batch else "2-D M") + (", zero matrix" if case["fill"] == "zero" else ""),
+        report("TTMatrix(M)", "batch (3-D M)" if batch else ("2-D M, zero matrix" if case["fill"] == "zero" else "2-D M"),
                "TTMatrix(M, ranks=%s, input_dims=%s, output_dims=%s) raised %s: %s" % (ranks if kind != "dense" else "full", ind, outd, r[1], r[2]),
                raises=r[1])
         return
